@@ -55,6 +55,7 @@ __all__ = [
     'is_char',
     'is_atom',
     'kg_truth',
+    'kg_is_true',
     'str_to_chr_arr',
     'get_dtype_kind',
     # Utilities
